@@ -80,7 +80,7 @@ def _case(draw):
                 "n": draw(st.integers(1, 3)), "d": draw(st.integers(2, 3))}
     name = draw(st.sampled_from(sorted(EXAMPLES)))
     params = draw(EXAMPLES[name][2])
-    return {"kind": "rate", "name": name, "params": params}
+    return {"kind": "rate", "name": name, "params": params, "wrapper": draw(st.sampled_from(["cvxpy", "cvxpy", "cvxpy", "mosek"]))}
 
 
 def strategy(tier):
@@ -92,12 +92,18 @@ def fixed_cases(tier):
     return []
 
 
-def call(module, fname, kwargs):
+def call(module, fname, kwargs, wrapper="cvxpy"):
     STATUS["all"] = []
     mod = importlib.import_module(module)
     fn = getattr(mod, fname)
     with prog.quiet():
         try:
+            if wrapper == "mosek":
+                # MosekWrapper driven against the stand-in module (vf/standin/mosek)
+                from vf import mosek_env
+                with mosek_env.active():
+                    out = fn(verbose=-1, wrapper="mosek", **kwargs)
+                return out, None
             return fn(verbose=-1, **kwargs), None
         except Exception as exc:  # noqa
             return None, exc
@@ -107,16 +113,22 @@ def check_rate(case, ctx):
     name = case["name"]
     module, fname, _strat, kind = EXAMPLES[name]
     kwargs = resolve(name, case["params"])
-    out, exc = call(module, fname, kwargs)
+    wrapper = case.get("wrapper", "cvxpy")
+    out, exc = call(module, fname, kwargs, wrapper)
     if exc is not None:
-        if type(exc).__name__ == "SolverError":
+        if type(exc).__name__ == "SolverError" or wrapper == "mosek" and type(exc).__name__ in ("LinAlgError", "AssertionError"):
+            # (stand-in solver failure: NaN solution items)
             ctx.label("inconclusive:SolverError")
             return
         raise exc
     wc, theory = out
     ctx.label("example:" + name)
-    if any(s != "optimal" for s in STATUS["all"]):
+    ctx.label("wrapper:" + wrapper)
+    if wrapper == "cvxpy" and any(s != "optimal" for s in STATUS["all"]):
         ctx.label("inconclusive:status")
+        return
+    if wrapper == "mosek" and (wc is None or wc != wc):
+        ctx.label("inconclusive:standin-status")
         return
     if wc is None:
         ctx.fail("no-value:%s" % name, "%s%r returns no value inside its documented range" % (fname, kwargs))
@@ -127,10 +139,10 @@ def check_rate(case, ctx):
     ctx.nontrivial(True)
     ctx.observe("rel_gap:" + kind, abs(wc - theory) / max(abs(theory), 1e-9) if kind == "tight" else 0.0)
     if kind == "tight":
-        if abs(wc - theory) > 1e-3 * abs(theory) + 1e-7:
+        if abs(wc - theory) > 1e-3 * abs(theory) + 2e-6:
             ctx.fail("tight-rate-missed:%s%s" % (name, (":" + regime(name, kwargs)) if regime(name, kwargs) else ""), "%s(%r) = %.9g but the documented tight rate is %.9g" % (fname, kwargs, wc, theory))
     elif kind == "upper":
-        if wc > theory * (1 + 1e-3) + 1e-7:
+        if wc > theory * (1 + 1e-3) + 2e-6:
             ctx.fail("upper-bound-exceeded:%s" % name, "%s(%r) = %.9g exceeds the documented upper bound %.9g" % (fname, kwargs, wc, theory))
     elif kind == "abs":
         if abs(wc - theory) > 1e-3 * (1 + abs(theory)):
@@ -186,7 +198,7 @@ def check_equiv(case, ctx):
     if w1 is None:
         return
     ctx.nontrivial(True)
-    if abs(w1 - w2) > 1e-3 * abs(w2) + 1e-7:
+    if abs(w1 - w2) > 1e-3 * abs(w2) + 2e-6:
         ctx.fail("equivalent-formulation-moves-value:%s" % case["name"],
                  "%s(%r) = %.9g but the base example %s(%r) = %.9g" % (fname, a_mod, w1, bname, a_base, w2))
 
